@@ -36,7 +36,7 @@ pub struct BatchSpec {
     /// controller's declared data: static menu number
     pub ctl_menu: u8,
     /// number of inner dispatches per controller run
-    pub k: u8,
+    pub k: u32,
     /// controller is a `MultiDispatcher` (plan() == k)
     pub multi: bool,
     pub time: u8,
@@ -233,6 +233,21 @@ impl Plan {
             }
         }
         v
+    }
+
+    /// every slot mentioned anywhere in the plan (any depth)
+    pub fn slots_used(&self) -> BTreeSet<Slot> {
+        let mut out = BTreeSet::new();
+        self.walk(&mut |it, _| match it {
+            Item::Sys(s) => out.extend(s.reads.iter().chain(s.writes.iter()).cloned()),
+            Item::Tl(t) => out.extend(t.reads.iter().chain(t.writes.iter()).cloned()),
+            Item::Batch(b) => {
+                let a = b.ctl_access();
+                out.extend(a.reads.iter().chain(a.writes.iter()).cloned());
+            }
+            _ => {}
+        });
+        out
     }
 
     pub fn batches(&self) -> Vec<&BatchSpec> {
